@@ -299,11 +299,11 @@ theorem facts_constants :
 /-- `_recalc_concurrency` computes what `recalc` computes (per-path symbolic normal form; this is
 the normal form of the code **after** F18 — on the pinned tree this obligation fails and the check
 reports the F18 witness) -/
-theorem facts_recalc : Facts.C20.recalcPaths = [
-    "when not sum(_req_times) / len(_req_times) NotEq 0 & _outgoing_concurrency.max_concurrent NotEq int(0.5 + min(_outgoing_concurrency.max_concurrent + max(3, _outgoing_concurrency.max_concurrent // 10), 250)): do _req_times.clear(); do _outgoing_concurrency.set_target(int(0.5 + min(_outgoing_concurrency.max_concurrent + max(3, _outgoing_concurrency.max_concurrent // 10), 250)))",
-    "when not sum(_req_times) / len(_req_times) NotEq 0 & not _outgoing_concurrency.max_concurrent NotEq int(0.5 + min(_outgoing_concurrency.max_concurrent + max(3, _outgoing_concurrency.max_concurrent // 10), 250)): do _req_times.clear()",
-    "when sum(_req_times) / len(_req_times) NotEq 0 & _outgoing_concurrency.max_concurrent NotEq int(0.5 + max(max(1, _outgoing_concurrency.max_concurrent - max(1, _outgoing_concurrency.max_concurrent // 5)), min(min(_outgoing_concurrency.max_concurrent + max(3, _outgoing_concurrency.max_concurrent // 10), 250), _outgoing_concurrency.max_concurrent * target_response_time / (sum(_req_times) / len(_req_times))))): do _req_times.clear(); do _outgoing_concurrency.set_target(int(0.5 + max(max(1, _outgoing_concurrency.max_concurrent - max(1, _outgoing_concurrency.max_concurrent // 5)), min(min(_outgoing_concurrency.max_concurrent + max(3, _outgoing_concurrency.max_concurrent // 10), 250), _outgoing_concurrency.max_concurrent * target_response_time / (sum(_req_times) / len(_req_times))))))",
-    "when sum(_req_times) / len(_req_times) NotEq 0 & not _outgoing_concurrency.max_concurrent NotEq int(0.5 + max(max(1, _outgoing_concurrency.max_concurrent - max(1, _outgoing_concurrency.max_concurrent // 5)), min(min(_outgoing_concurrency.max_concurrent + max(3, _outgoing_concurrency.max_concurrent // 10), 250), _outgoing_concurrency.max_concurrent * target_response_time / (sum(_req_times) / len(_req_times))))): do _req_times.clear()"] :=
+theorem facts_recalc : Facts.C20.recalcPaths =
+    ["when sum(_req_times) / len(_req_times) Eq 0 & _outgoing_concurrency.max_concurrent Eq int(0.5 + min(max(3, _outgoing_concurrency.max_concurrent // 10) + _outgoing_concurrency.max_concurrent, 250)): do _req_times.clear()",
+     "when sum(_req_times) / len(_req_times) Eq 0 & _outgoing_concurrency.max_concurrent NotEq int(0.5 + min(max(3, _outgoing_concurrency.max_concurrent // 10) + _outgoing_concurrency.max_concurrent, 250)): do _req_times.clear(); do _outgoing_concurrency.set_target(int(0.5 + min(max(3, _outgoing_concurrency.max_concurrent // 10) + _outgoing_concurrency.max_concurrent, 250)))",
+     "when sum(_req_times) / len(_req_times) NotEq 0 & _outgoing_concurrency.max_concurrent Eq int(0.5 + max(max(1, _outgoing_concurrency.max_concurrent - max(1, _outgoing_concurrency.max_concurrent // 5)), min(min(max(3, _outgoing_concurrency.max_concurrent // 10) + _outgoing_concurrency.max_concurrent, 250), _outgoing_concurrency.max_concurrent * target_response_time / (sum(_req_times) / len(_req_times))))): do _req_times.clear()",
+     "when sum(_req_times) / len(_req_times) NotEq 0 & _outgoing_concurrency.max_concurrent NotEq int(0.5 + max(max(1, _outgoing_concurrency.max_concurrent - max(1, _outgoing_concurrency.max_concurrent // 5)), min(min(max(3, _outgoing_concurrency.max_concurrent // 10) + _outgoing_concurrency.max_concurrent, 250), _outgoing_concurrency.max_concurrent * target_response_time / (sum(_req_times) / len(_req_times))))): do _req_times.clear(); do _outgoing_concurrency.set_target(int(0.5 + max(max(1, _outgoing_concurrency.max_concurrent - max(1, _outgoing_concurrency.max_concurrent // 5)), min(min(max(3, _outgoing_concurrency.max_concurrent // 10) + _outgoing_concurrency.max_concurrent, 250), _outgoing_concurrency.max_concurrent * target_response_time / (sum(_req_times) / len(_req_times))))))"] :=
   rfl
 
 /-- the shape of `_send_concurrent`: limiter around everything; the wait for the future under
@@ -313,11 +313,11 @@ theorem facts_send_concurrent :
     Facts.C20.sendConcurrentGuard = "_outgoing_concurrency" ∧
     Facts.C20.awaitUnder = "timeout_after(sent_request_timeout)" ∧
     Facts.C20.finallyInsideGuard = true ∧
-    Facts.C20.finallyPaths = [
-      "when a2 Eq 1 & len(_req_times) GtE recalibrate_count: do _req_times.append(max(0, time.time() - send_time)); do _recalc_concurrency()",
-      "when a2 Eq 1 & not len(_req_times) GtE recalibrate_count: do _req_times.append(max(0, time.time() - send_time))",
-      "when not a2 Eq 1 & len(_req_times) GtE recalibrate_count: do _req_times.extend([max(0, time.time() - send_time) / a2] * a2); do _recalc_concurrency()",
-      "when not a2 Eq 1 & not len(_req_times) GtE recalibrate_count: do _req_times.extend([max(0, time.time() - send_time) / a2] * a2)"] ∧
+    Facts.C20.finallyPaths =
+      ["when a2 Eq 1 & len(_req_times) GtE recalibrate_count: do _req_times.append(max(0, time.time() - send_time)); do _recalc_concurrency()",
+      "when a2 Eq 1 & len(_req_times) Lt recalibrate_count: do _req_times.append(max(0, time.time() - send_time))",
+      "when a2 NotEq 1 & len(_req_times) GtE recalibrate_count: do _req_times.extend([max(0, time.time() - send_time) / a2] * a2); do _recalc_concurrency()",
+      "when a2 NotEq 1 & len(_req_times) Lt recalibrate_count: do _req_times.extend([max(0, time.time() - send_time) / a2] * a2)"] ∧
     Facts.C20.connectionLostBody = ["cancel_pending_requests"] :=
   ⟨rfl, rfl, rfl, rfl, rfl⟩
 
